@@ -536,6 +536,7 @@ pub struct Enc<'p> {
     pub allow_local: bool,
     /// allow legacy tags (99,100,115,101,102,103,114,107, big forms for small ints, ...)
     pub allow_legacy: bool,
+    next_atom_in_full: bool,
     pub local_hash: [u8; 8],
 }
 
@@ -552,7 +553,7 @@ pub fn float_text(f: f64) -> [u8; 31] {
 
 impl<'p> Enc<'p> {
     pub fn new(picker: &'p mut dyn Picker) -> Self {
-        Enc { out: vec![], picker, atom_refs: None, allow_local: true, allow_legacy: true, local_hash: [0xA5; 8] }
+        Enc { out: vec![], picker, atom_refs: None, allow_local: true, allow_legacy: true, local_hash: [0xA5; 8], next_atom_in_full: false }
     }
     fn pick(&mut self, n: usize, what: &'static str) -> usize {
         if n <= 1 {
@@ -572,7 +573,10 @@ impl<'p> Enc<'p> {
     }
 
     pub fn atom(&mut self, a: &str) {
-        if let Some(m) = self.atom_refs {
+        // the node name inside a LOCAL_EXT is written in full: the wrapped bytes are opaque to every other node and
+        // must not depend on one message's distribution header
+        let inside_local = std::mem::replace(&mut self.next_atom_in_full, false);
+        if let (Some(m), false) = (self.atom_refs, inside_local) {
             if let Some(&i) = m.get(a) {
                 self.out.push(82);
                 self.out.push(i);
@@ -682,6 +686,7 @@ impl<'p> Enc<'p> {
             self.out.push(121);
             let h = self.local_hash;
             self.out.extend_from_slice(&h);
+            self.next_atom_in_full = true;
             true
         } else {
             false
